@@ -66,7 +66,7 @@ CHECKS = {
         text='Theorems classify (all 65536 codes, by evaluation over the table regenerated from error.c) and srq_step (callback only with MSS set, always when MSS rises). Latching and stickiness are checked by the oracle on the implementation and by correspondence with the register model.',
         technique='Coq proof (finite evaluation over the generated table + step lemma) + correspondence + oracle', design='7/C12'),
     'C13': dict(
-        text='Per-recogniser theorems on the lexer model: decimal numbers, white space, character data, single characters and flat expressions consume exactly the longest prefix of their 488.2 grammar (or nothing); nondecimal numbers likewise; strings and definite-length blocks are sound and complete for their delimited forms; compound and common headers are complete and sound (compound_sound / common_sound: whatever is reported as a header is :?mnemonic(:mnemonic)*?? resp. *mnemonic?? followed by something that cannot continue it); whole units header-blank-decimal-list-terminator are complete (unit_complete_full: with consumed length and terminator kind) and units with a reported header are sound (unit_sound_compound / unit_sound_common: blanks, a well-formed header, delimited by a semicolon, a line terminator or the end of input); the line terminator is maximal. tie_char_classes: every character-class predicate of the lexer model holds on exactly the byte values on which the predicate of lexer.c (and the ctype function it calls) holds -- the translator evaluates them on all 256 values on every run. Tied by all strings up to length 4/5 over one representative per character class (every recogniser on every string) plus generated long tokens; independent regular-expression references judge the implementation.',
+        text='Per-recogniser theorems on the lexer model: decimal numbers, white space, character data, single characters and flat expressions consume exactly the longest prefix of their 488.2 grammar (or nothing); nondecimal numbers likewise; strings and definite-length blocks are sound and complete for their delimited forms; the relaxed suffix grammar is complete (suffix_complete: /? letters (-? digit)? followed by any number of [/.] letters* (-? digit?) elements is consumed exactly and entirely); compound and common headers are complete and sound (compound_sound / common_sound: whatever is reported as a header is :?mnemonic(:mnemonic)*?? resp. *mnemonic?? followed by something that cannot continue it); whole units header-blank-decimal-list-terminator are complete (unit_complete_full: with consumed length and terminator kind) and units with a reported header are sound (unit_sound_compound / unit_sound_common: blanks, a well-formed header, delimited by a semicolon, a line terminator or the end of input); the line terminator is maximal. tie_char_classes: every character-class predicate of the lexer model holds on exactly the byte values on which the predicate of lexer.c (and the ctype function it calls) holds -- the translator evaluates them on all 256 values on every run. Tied by all strings up to length 4/5 over one representative per character class (every recogniser on every string) plus generated long tokens; independent regular-expression references judge the implementation.',
         technique='Coq proof (maximal-munch lemmas per recogniser) + correspondence (exhaustive short strings) + grammar oracle', design='7/C13'),
     'C18': dict(
         text='Theorems quoted_part / quoted_bounded / quoted_prefix / quoted_maximal: for every description and text the model of SCPI_ResultError emits code,"q" with every quote doubled, |q| <= 255, unquote(q) a prefix of description;text, cut as late as the limit allows. Tied on the malloc build directly and through push + SYST:ERR? on the malloc and static-heap builds; an independent 488.2 string reader judges the implementation.',
